@@ -68,4 +68,34 @@ CHECKS = {
         "assumptions": ["4-byte slot ids and 4-byte string lengths are never driven to their limit (out of reach); "
                         "only their arithmetic away from the edge is exercised"],
     },
+    "C06": {
+        "level": "exploration",
+        "classes": ["C06"],
+        "rule": HIST_RULE + "; every allocator call is checked against a ledger of live blocks shared by all allocator "
+                "instances of the run",
+        "budget_s": {"quick": 70, "thorough": 1500},
+        "batches": [
+            {"family": "hist", "mode": "free", "cfgs": {"quick": ["A", "B", "D", "G"], "thorough": ALL_CFGS},
+             "runs": {"quick": 12000, "thorough": 300000}},
+        ],
+        "probes": ["probe.dedup_checked", "probe.free_list_nonempty"],
+        "components": COMPONENTS,
+        "assumptions": ["documents on the default allocator (moved-from documents) are outside the ledger; ASan covers them"],
+    },
+    "C05": {
+        "level": "fault_enumeration",
+        "classes": ["C05", "C06"],
+        "rule": ("scenarios are hist plans of 3-25 operations; each is first run fault-free to count the failable allocator "
+                 "calls of every operation, then replayed with every single-failure position and every fail-from position "
+                 "of every operation (exhaustive per scenario, scenarios sampled); non-trivial = at least 3 executed operations"),
+        "budget_s": {"quick": 80, "thorough": 1500},
+        "batches": [
+            {"family": "hist", "mode": "faultenum", "cfgs": {"quick": ["A", "B", "G"], "thorough": ALL_CFGS},
+             "runs": {"quick": 1500, "thorough": 40000}},
+        ],
+        "probes": ["fault.alloc_fired", "c05.failed_cleanly", "c05.absorbed", "fault.positions_single", "fault.positions_from"],
+        "components": COMPONENTS,
+        "assumptions": ["a shrinking reallocate never fails (the property says so)",
+                        "after a failure the model is re-synchronised on the region the operation targets, after validation"],
+    },
 }
